@@ -15,6 +15,7 @@ import (
 	"rscheck/core"
 	"rscheck/driver"
 	"rscheck/pat"
+	"rscheck/rules/c07/inl"
 )
 
 const (
@@ -44,8 +45,19 @@ func reentrant(c *core.Ctx) {
 	reent.Check(c, "R6.reentrant", roots, []string{"redis-shake/common", "pkg/rdb", "redis-shake/filter"}, "the parallel full-sync / restore workers")
 }
 
+// Specs names the anchored functions of C07 for the helper inliner.
+var Specs = []inl.Spec{
+	{Pkg: pkgSync, Roots: []string{"DbSyncer.syncRDBFile"}},
+	{Pkg: pkgRun, Roots: []string{"dbRestorer.restoreRDBFile"}},
+	{Pkg: pkgCommon, Roots: []string{"NewRDBLoader"}, Exclude: []string{"RestoreRdbEntry", "SelectDB", "OpenRedisConn", "OpenRedisConnWithTimeout"}},
+}
+
 func Run(c *core.Ctx) {
 	defer reentrant(c)
+	Dual(c, Specs, run)
+}
+
+func run(c *core.Ctx) {
 	if f := c.Func(pkgSync, "DbSyncer", "syncRDBFile"); f != nil {
 		pool(c, f, "syncRDBFile")
 	}
